@@ -200,4 +200,9 @@ SizeSufficient == act.name = "build" /\ ~act.refused => Works(act.n, act.f, act.
 
 DumpEdge == PrintT("EDGE " \o ToJson(View) \o "\t" \o ToJson(act') \o "\t" \o ToJson(View'))
 DumpStep == PrintT("OUT " \o ToJson(act'))
+(* The exhaustive configurations run WITHOUT a VIEW: every (state, outcome) pair is a state of its own, so the   *)
+(* invariants over `act` are evaluated for every transition.  (Under a VIEW that hides act, TLC evaluates state  *)
+(* invariants only for the first representative of a view class; the primed action forms used elsewhere are too   *)
+(* slow here.)  The Dump configurations keep the VIEW - they only print edges.                                    *)
+
 =============================================================================
